@@ -494,6 +494,20 @@ impl Tcp {
             .clone()
     }
 
+    /// Replace the flow control handle of a stream socket. The accepting
+    /// side shares the connecting side's (inverted) handle.
+    pub(crate) fn set_flow_control(&mut self, pair: SocketPair, flow_control: BidiFlowControl) {
+        if let Some(sock) = self.sockets.get_mut(&pair) {
+            sock.flow_control = flow_control;
+        }
+    }
+
+    /// Whether the stream socket still exists (it is removed when the peer
+    /// resets the connection).
+    pub(crate) fn has_stream(&self, pair: SocketPair) -> bool {
+        self.sockets.contains_key(&pair)
+    }
+
     pub(crate) fn stream_count(&self) -> usize {
         self.sockets.len()
     }
@@ -539,10 +553,10 @@ impl Tcp {
                 None => return Err(Protocol::Tcp(Segment::Rst)),
             },
             Segment::Rst => {
-                if self.sockets.get(&SocketPair::new(dst, src)).is_some() {
-                    self.sockets
-                        .swap_remove(&SocketPair::new(dst, src))
-                        .unwrap();
+                if let Some(sock) = self.sockets.swap_remove(&SocketPair::new(dst, src)) {
+                    // A writer parked on exhausted credits would otherwise
+                    // wait forever: the peer that returns credits is gone.
+                    sock.flow_control.wake_writer();
                 }
             }
         };
